@@ -33,16 +33,16 @@ KERNELS = {
     "C39": ["k_find_file", "k_do_find_file", "k_fsloader_find"],
     "C06": ["k_unique_id", "k_random"],
     "C11": ["k_plus_minus_units", "k_numeric_cmp", "k_unitset_simplify"],
-    "C13": ["k_map_merge", "k_map_find_value", "k_map_literal"],
+    "C13": ["k_map_merge", "k_map_find_value", "k_map_literal", "k_map_set_inner", "k_deep_merge"],
     "C12": ["k_numeric_cmp", "k_value_eq_symmetric"],
     "C14": ["k_is_true", "k_and_or", "k_binop_short_circuit", "k_not"],
     "C16": ["k_set_variable", "k_loop_scopes", "k_store_restore_locals"],
     "C17": ["k_for_bounds", "k_if_dispatch"],
     "C36": ["k_comment_dispatch", "k_module_init"],
     "C37": ["k_do_use_prefix", "k_use_with"],
-    "C18": ["k_formal_args_eval", "k_callable_scopes"],
+    "C18": ["k_formal_args_eval", "k_callable_scopes", "k_call_args_splat"],
     "C20": ["k_bubble", "k_dest_start", "k_selector_ctx"],
-    "C21": ["k_error_and_drop", "k_dest_start", "k_declaration_arms", "k_lock_pairing"],
+    "C21": ["k_error_and_drop", "k_dest_start", "k_declaration_arms", "k_lock_pairing", "k_loop_scopes"],
     "C26": ["k_str_slice", "k_str_insert", "k_str_index_length"],
     "C29": ["k_math_bounding", "k_math_percentage", "k_math_clamp", "k_css_clamp", "k_find_extreme"],
     "C28": ["k_index_of", "k_set_nth", "k_append_join", "k_list_separator", "k_list_index", "k_nth", "k_get_list"],
@@ -385,6 +385,12 @@ STRUCTURAL_PROBES = {
                          ("map.has-key((a: (b: 2)), a, b)", "true"), ("map-get((1: x), 1.0)", "x"), ("map-get((1px: x, 1: y), 1)", "y")],
     "k_map_literal": [("inspect((a: 1, b: 2))", "(a: 1, b: 2)"), ("inspect((a: 1, a: 2))", "<error>"), ("inspect((a: 1, \"a\": 2))", "<error>"), ("inspect((1: x, 1.0: y))", "<error>"),
                       ("inspect((1in: x, 96px: y))", "<error>"), ("inspect((a: 1, b: (a: 2)))", "(a: 1, b: (a: 2))"), ("inspect((a: 1, b: 2, a: 3))", "<error>")],
+    "k_map_set_inner": [("inspect(map.set((a: (x: 1), b: 2), a, x, 3))", "(a: (x: 3), b: 2)"), ("inspect(map.set((a: 1, b: 2), a, 3))", "(a: 3, b: 2)"),
+                        ("inspect(map.set((a: 1, b: 2), c, 3))", "(a: 1, b: 2, c: 3)"), ("inspect(map.set((a: 1, b: 2), a, x, 3))", "(a: (x: 3), b: 2)"),
+                        ("inspect(map.set((a: 1), b, c, 3))", "(a: 1, b: (c: 3))"), ("inspect(map-get(map.set((1: x), 1.0, y), 1))", "y")],
+    "k_deep_merge": [("inspect(map.deep-merge((c: (d: e)), (c: (1 2 3))))", "(c: 1 2 3)"), ("inspect(map.deep-merge((c: (d: e)), (c: ())))", "(c: (d: e))"),
+                     ("inspect(map.deep-merge((c: (d: e)), (c: (f: g))))", "(c: (d: e, f: g))"), ("inspect(map.deep-merge((c: 1), (c: (f: g))))", "(c: (f: g))"),
+                     ("inspect(map.deep-merge((c: (d: e)), (c: 2)))", "(c: 2)"), ("inspect(map.deep-merge((a: 1), (b: 2)))", "(a: 1, b: 2)")],
     "k_map_merge": [("inspect(map-merge((c: old), (c: new, e: f)))", "(c: new, e: f)"), ("inspect(map-merge((a: 1, b: 2), (b: 3)))", "(a: 1, b: 3)"),
                     ("inspect(map-merge((y: 0), (x: 1, y: 2, z: 3)))", "(y: 2, x: 1, z: 3)"), ("inspect(map-merge((), (a: 1)))", "(a: 1)")],
     "k_if_dispatch": [("@if () { a { b: 1 } } @else { a { b: 2 } }", "b: 1"), ("@if null { a { b: 1 } } @else { a { b: 2 } }", "b: 2"),
@@ -483,6 +489,13 @@ STRUCTURAL_PROBES = {
     ],
     "k_nth": [("nth(a b c, 2)", "b"), ("nth(a b c, -1)", "c"), ("inspect(nth((x: 1, y: 2), 2))", "y 2"), ("inspect(nth((x: 1, y: 2), -2))", "x 1"), ("nth(solo, 1)", "solo"),
               ("nth(solo, -1)", "solo"), ("nth((a, b), 1)", "a"), ("nth([a b], 2)", "b"), ("inspect(nth((a b) (c d), 2))", "c d")],
+    "k_call_args_splat": [
+        ("@function f($a: 1) { @return $a } @function fwd($args...) { @return f($args..., $a: 9) } a { b: fwd($a: 1) }", "<error>"),
+        ("@function f($a: 1) { @return $a } @function fwd($args...) { @return f($args...) } a { b: fwd($a: 5) }", "b: 5"),
+        ("@function f($a: 1, $b: 2) { @return $a + $b } @function fwd($args...) { @return f($args..., $b: 9) } a { b: fwd($a: 1) }", "b: 10"),
+        ("@function f($a: 1, $b: 2) { @return $a + $b } a { b: f((a: 3, b: 4)...) }", "b: 7"),
+        ("@mixin m($w, $h) { w: $w; h: $h } @mixin fwd($args...) { @include m($args..., $h: 4) } a { @include fwd(3, $h: 5) }", "<error>"),
+    ],
     "k_list_index": [("inspect(index(a b c, c))", "3"), ("inspect(index(a b a, a))", "1"), ("inspect(index((a: 1, b: 2), b 2))", "2"),
                      ("inspect(index((a: 1, b: 2), b 9))", "null"), ("inspect(index((a: 1, b: 2), x 2))", "null"), ("inspect(index((a: 1, b: 2), (b, 2)))", "null"),
                      ("inspect(index(a, a))", "1"), ("inspect(index(a, b))", "null"), ("inspect(index((a: 1, b: 2), [b 2]))", "null"),
@@ -546,6 +559,10 @@ STRUCTURAL_PROBES["k_dest_start"] = [
     ("a { @media screen { b: c; @supports (x: y) { d: e } } }", "b: c"),
     ("a { @foo bar { b: c; @media screen { d: e } } }", "b: c"),
     ("a { @media screen { b: c; @media (min-width: 1px) { d: e } } }", "b: c"),
+    (".a { @supports (x: y) { @media screen { b: c } } }", "@supports (x: y) { @media screen { .a { b: c; } } }"),
+    (".a { @media screen { @supports (x: y) { b: c } } }", "@media screen { @supports (x: y) { .a { b: c; } } }"),
+    (".a { @foo bar { @media screen { b: c } } }", "@foo bar { @media screen { .a { b: c; } } }"),
+    (".a { @font-face { b: c } }", "@font-face { b: c; }"),
 ]
 STRUCTURAL_PROBES["k_bubble"] = [
     ("a { b: c; @media screen { d: e } f: g }", "a { b: c; } @media screen { a { d: e; } } a { f: g; }"),
@@ -562,6 +579,9 @@ STRUCTURAL_PROBES["k_loop_scopes"] = [
     ("a { @each $k, $v in (p: 1, q: 2) { #{$k}: $v } }", "a { p: 1; q: 2; }"),
     ("a { @for $i from 1 through 2 { $t: $i * 2; b: $t } }", "a { b: 2; b: 4; }"),
     ("$n: 0; @while $n < 2 { $n: $n + 1 !global; a { b: $n } }", "a { b: 1; } a { b: 2; }"),
+    ("@each $x in a, b, c { @if $x == a { @error \"boom\" } .m-#{$x} { marker: $x } }", "<error>"),
+    ("@for $i from 1 through 3 { @if $i == 1 { @error \"boom\" } .m-#{$i} { marker: $i } }", "<error>"),
+    ("a { @each $x in 1 2 { p-#{$x}: nosuchfn($undefined) } }", "<error>"),
 ]
 STRUCTURAL_PROBES["k_callable_scopes"] = [
     ("$x: outer; @function f() { @return $x } a { $x: inner; b: f() }", "b: outer"),
